@@ -233,7 +233,7 @@ def cases(tier, seed, shard, nshards):
             yield case
         i += 1
     rng = random.Random(f"{seed}:{ID}:{shard}")
-    nrand = (6000 if tier == "quick" else 160000) // nshards
+    nrand = (5000 if tier == "quick" else 120000) // nshards
     for _ in range(nrand):
         yield _rand_case(rng)
 
@@ -665,7 +665,7 @@ def run_case(case, ctx):
     if attempts_seen and (ended or how == "close"):
         ctx.nontrivial([case["parents"], case["first"], sig, how])
     if case["kind"] == "rand" and len(sig) >= 3:
-        ctx.sample({"case": case, "per_cycle": sig, "trace_head": [list(e) for e in rt.full[:60]]})
+        ctx.sample({"case": case, "per_cycle": sig, "trace_head": [list(e) for e in rt.full[:40]]})
     try:
         gen.close()
     except Exception:
